@@ -218,7 +218,7 @@ def solve_vc(pc, formula, timeout_ms, symbols):
         m = s.model()
         md = {}
         for n, t in symbols.items():
-            if n == "__sizes__":
+            if n.startswith("__"):
                 continue
             try:
                 md[n] = model_value(m, t)
@@ -257,83 +257,11 @@ def solve_vc(pc, formula, timeout_ms, symbols):
     # refutation by instantiation: a universally quantified VC that fails for concrete small extents is refuted
     sizes = symbols.get("__sizes__", {})
     if sizes:
-        md = refute_small(pc, formula, sizes, symbols)
+        from .refute import refute_small
+        md = refute_small(pc, formula, sizes, symbols, model_value, aux=symbols.get("__aux_sizes__", {}))
         if md is not None:
             return "sat", md, time.time() - t0, "z3-instantiated"
     return "unknown", None, time.time() - t0, "z3+qfnia+cvc5"
-
-
-def _unfold_sums(t, limit=4):
-    """SUM(f, n) with a literal n <= limit  ->  f[0] + ... + f[n-1]"""
-    cache = {}
-
-    def rec(x):
-        i = x.get_id()
-        if i in cache:
-            return cache[i]
-        if z3.is_quantifier(x) or z3.is_var(x):
-            cache[i] = x
-            return x
-        ch = [rec(c) for c in x.children()]
-        r = x
-        if z3.is_app(x):
-            if x.decl().name().startswith("SUM_") and len(ch) == 2:
-                n = z3.simplify(ch[1])
-                if z3.is_int_value(n) and 0 <= n.as_long() <= limit:
-                    zero = z3.RealVal(0) if x.sort() == z3.RealSort() else z3.IntVal(0)
-                    r = zero
-                    for k in range(n.as_long()):
-                        r = r + z3.Select(ch[0], z3.IntVal(k))
-                    cache[i] = z3.simplify(r)
-                    return cache[i]
-            if ch and any(a.get_id() != b.get_id() for a, b in zip(ch, x.children())):
-                try:
-                    r = x.decl()(*ch)
-                except Exception:
-                    r = x
-        cache[i] = r
-        return r
-
-    return rec(t)
-
-
-def refute_small(pc, formula, sizes, symbols, budget_s=40, values=(1, 2, 3)):
-    import itertools
-    t0 = time.time()
-    names = list(sizes)
-    combos = list(itertools.product(values, repeat=len(names)))
-    combos.sort(key=lambda c: (max(c), sum(c)))
-    for combo in combos[:60]:
-        if time.time() - t0 > budget_s:
-            break
-        sub = [(sizes[n], z3.IntVal(v)) for n, v in zip(names, combo)]
-        try:
-            f2 = z3.simplify(z3.substitute(z3.And(*pc, z3.Not(formula)), *sub))
-            for _ in range(4):  # nested reductions appear after beta-reducing the outer ones
-                f3 = z3.simplify(_unfold_sums(f2))
-                if f3.eq(f2):
-                    break
-                f2 = f3
-        except z3.Z3Exception:
-            continue
-        s = z3.Solver()
-        s.set("timeout", 4000)
-        s.add(f2)
-        if s.check() == z3.sat:
-            m = s.model()
-            md = {}
-            for n, t in symbols.items():
-                if n == "__sizes__":
-                    continue
-                try:
-                    md[n] = model_value(m, z3.substitute(t, *sub)) if not isinstance(t, dict) else None
-                except Exception as e:  # pragma: no cover
-                    md[n] = f"<{e}>"
-            for n, v in zip(names, combo):
-                md[n] = v
-            md["__instantiated__"] = dict(zip(names, combo))
-            return md
-    return None
 
 
 def cvc5_check(solver, timeout_ms):
@@ -408,6 +336,11 @@ def run_case(cd: CaseDef, params, case_id):
         for api, res in zip(apis, results):
             if res.outcome == "infeasible":
                 continue
+            # extents introduced by slicing (definitional constants) are candidates for small-instance refutation too
+            aux = symbols.setdefault("__aux_sizes__", {})
+            for nm, v in res.ctx.ghost.get("defined_consts", []):
+                if z3.is_int(v):
+                    aux[str(v)] = (nm, v)
             covers |= api.covers
             out["assumptions"] = sorted(set(out["assumptions"]) | res.ctx.assumptions)
             out["axioms"] = sorted(set(out["axioms"]) | set(res.ctx.axioms))
